@@ -10,6 +10,7 @@ from pathlib import Path
 from typing import Dict, List, Optional
 
 from experimaestro import Config, Constant, LightweightTask, Meta, Param, PathGenerator, Task, field, deprecate
+from experimaestro.annotations import option, param
 
 CALLS = []  # runtime call log (post-init / execute), reset by the drivers
 
@@ -117,6 +118,37 @@ class DH(Config):
 
     child: Param[K2] = K2(a=1)
     n: Param[int] = 0
+
+    def __post_init__(self):
+        CALLS.append(("post_init", id(self)))
+
+
+@param("a", type=int)
+@option("threads", default=4)
+class OD(Config):
+    """Declared with the decorators: a parameter and an option (outside the signature)"""
+
+    def __post_init__(self):
+        CALLS.append(("post_init", id(self)))
+
+
+class MB(Config):
+    x: Param[int] = 1
+    y: Param[int] = 2
+
+
+class ML(MB):
+    """... one branch turns the parameter into a Meta parameter"""
+
+    x: Meta[int] = 1
+
+
+class MR(MB):
+    pass
+
+
+class MD(ML, MR):
+    """Diamond: the first base wins (x is outside the signature, y is in)"""
 
     def __post_init__(self):
         CALLS.append(("post_init", id(self)))
